@@ -159,6 +159,26 @@ func c17ParseRun(c *mon.Ctx, i int) {
 					c17ParseJudge(c, role, t, res)
 				}
 			}
+			// a raw control byte inside a string body (never the first byte of the body, never
+			// part of an escape sequence): the offending byte is that byte
+			if spans := c17StringBodies(plain); len(spans) > 0 {
+				for f := 0; f < 4; f++ {
+					sp := spans[r.Intn(len(spans))]
+					if sp[1]-sp[0] < 2 {
+						continue
+					}
+					off := r.Range(sp[0]+1, sp[1]-1)
+					if plain[off] == '\\' || plain[off-1] == '\\' || (off >= 2 && plain[off-2] == '\\') || strings.Contains(plain[max(sp[0], off-6):off], "\\u") {
+						continue
+					}
+					t := plain[:off] + string(mon.Pick(r, []byte{0x01, '\t', '\n', '\r', 0x1f})) + plain[off+1:]
+					res := refjson.Check([]byte(t), refjson.Strict)
+					if !res.Accept && !res.EndedEarly && res.ErrOffset == off {
+						c.Count("parse: control byte planted inside a string body", 1)
+						c17ParseJudge(c, role, t, res)
+					}
+				}
+			}
 			for f := 0; f < 8 && len(plain) > 0; f++ {
 				off := r.Intn(len(plain))
 				t := plain[:off] + "?" + plain[off+1:]
@@ -198,6 +218,28 @@ func c17NumeralPrefixRepeats(v *model.Val, plain string, off int) bool {
 		}
 	}
 	return false
+}
+
+// c17StringBodies returns the [begin, end) spans of the bodies of the string tokens of a JSON text.
+func c17StringBodies(text string) [][2]int {
+	var out [][2]int
+	for i := 0; i < len(text); i++ {
+		if text[i] != '"' {
+			continue
+		}
+		j := i + 1
+		for j < len(text) && text[j] != '"' {
+			if text[j] == '\\' {
+				j++
+			}
+			j++
+		}
+		if j < len(text) {
+			out = append(out, [2]int{i + 1, j})
+		}
+		i = j
+	}
+	return out
 }
 
 func numeralsOf(v *model.Val) string {
@@ -540,6 +582,38 @@ func c17TypeRun(c *mon.Ctx, i int) {
 					{Name: "@zparent", Root: parent},
 				},
 			}
+		}
+		if k%6 == 3 {
+			// an INHERITED key shortcut whose type is not a string type (or was not added): the
+			// error belongs to the key in the parent's text, wherever the inheriting object stands
+			short := model.PShort("@kk", model.Int("1"))
+			parent := model.Obj(model.P("pad", model.Str("some padding so that offsets differ")), short, model.P("leaf", model.Int("5")))
+			child := model.Obj(model.P("own", model.Int("1"))).With(model.RAllOf("@zparent"))
+			s = &model.Schema{
+				Root: mon.Pick(r, []*model.Node{model.Ref("@achild"), model.Obj(model.P("a", model.Obj(model.P("b", model.Obj(model.P("c", model.Ref("@achild"))))))), model.Arr(model.Ref("@achild"))}),
+				Types: []*model.TypeDef{
+					{Name: "@achild", Root: child},
+					{Name: "@zparent", Root: parent},
+				},
+			}
+			if r.Bool() {
+				s.Types = append(s.Types, &model.TypeDef{Name: "@kk", Root: model.Int("5")}) // not a string type
+			}
+			sp := specOf(s, model.Style{})
+			sp.UnnamedFiles = r.Chance(1, 4)
+			want := short.Node.KeyPos
+			sch, obs := lib.Build(sp)
+			if obs.OK {
+				obs = lib.Safe(sch.Check)
+			}
+			c.Eval(1)
+			c.Count("type positions compared (invalid key shortcut inherited through allOf)", 1)
+			got := c17TypeObserve(obs, c17OwnerText(sp, "@zparent"))
+			exp := c17TypeExpected(sp, "@zparent", want)
+			if got != exp {
+				c.Violate("type-pos", c17TypeCase{sp, "@zparent"}, exp, got, "the error about an inherited key shortcut does not refer to the key in the parent's text")
+			}
+			continue
 		}
 		if !buildSchema(specOf(s, model.Style{})).ok {
 			c.Count("type positions: generated graph rejected by Check (skipped)", 1)
